@@ -161,6 +161,21 @@ func entityCount(r *sim.Request) int {
 
 func isEntityRequest(r *sim.Request) bool { return strings.Contains(r.Query, "_entities(") }
 
+// faultSchema is the supergraph of the case being checked (one case at a time per process).
+var faultSchema *ast.Schema
+
+func faultNullable(typ, field string) bool {
+	if faultSchema == nil {
+		return false
+	}
+	td := faultSchema.Types[typ]
+	if td == nil {
+		return false
+	}
+	fd := td.Fields.ForName(field)
+	return fd != nil && !fd.Type.NonNull
+}
+
 // respond builds the faulted response for one request.
 func respond(kind string, r *sim.Request, answer []byte) *sim.Response {
 	switch kind {
@@ -198,8 +213,11 @@ func respond(kind string, r *sim.Request, answer []byte) *sim.Response {
 			for i, e := range ents {
 				em, _ := e.(map[string]any)
 				var keys []string
+				tn, _ := em["__typename"].(string)
 				for k, x := range em {
-					if k != "__typename" && (x != nil || pass == 1) {
+					// only a field the schema declares nullable can come back null (aliased
+					// keys are not resolved: skipped)
+					if k != "__typename" && (x != nil || pass == 1) && faultNullable(tn, k) {
 						keys = append(keys, k)
 					}
 				}
@@ -467,6 +485,7 @@ func checkFault(c faultCase, o *pbt.Rec) pbt.Verdict {
 		return pbt.Bad("engine construction failed: %v", err)
 	}
 	defer gw.Close()
+	faultSchema = gw.World.Super
 	refRes, err := gw.World.Reference(c.Op)
 	if err != nil {
 		o.Discard("generator-vs-gqlparser")
